@@ -52,6 +52,9 @@ TIERS = {
 # of that shape are held back from the batch and counted.  The representative's rejection is reported
 # like any other finding (violation unless listed in known_findings.jsonl).
 HOLD_SHAPES = ["shape:if_on_outer_variable"]
+# features whose presence alone makes a program fail in the generator or in rustc (known findings
+# c07-*-shape match on them; the diagnostic that comes first varies with what else the program holds)
+BAD_SHAPES = {"or_and", "else_and", "shape:two_tested_one_type", "shape:if_on_outer_variable"}
 
 # Failures that are instances of findings already listed for C01 (same printer code, same defect) are
 # counted under the existing key - property C07 adds no second entry for them.
@@ -139,7 +142,12 @@ class Ctx:
                 if keys:
                     self.c01_hits[m["key_prefix"]] += 1
                     return "known-c01"
+        # shapes the generator is known not to get through rustc: such a program cannot show anything
+        # else at the generator / compile stage, whatever diagnostic comes first
+        bad = sorted(f.replace("shape:", "") for f in feats if f in BAD_SHAPES)
         obs = {"stage": stage, "verdict": verdict, "sig": sig}
+        if bad and stage in ("generator", "compile"):
+            obs["shapes"] = "," + ",".join(bad) + ","
         self.stage_sigs["%s|%s|%s" % (stage, verdict, sig)] += 1
         return self.v.report(obs, replay=lambda: replay_body(entry, stage, detail))
 
